@@ -52,6 +52,7 @@ partial def showV : V → String
   | .slice a b c => "s(" ++ showV a ++ "," ++ showV b ++ "," ++ showV c ++ ")"
   | .tup2 a b => "(" ++ showV a ++ ";" ++ showV b ++ ")"
   | .tup3 a b c => "(" ++ showV a ++ ";" ++ showV b ++ ";" ++ showV c ++ ")"
+  | .dict es => "{" ++ showV es ++ "}"
   | .nil => "()"
   | .cons a b => "(" ++ ";".intercalate ((a :: (b.toList?.getD [])).map showV) ++ ")"
 
